@@ -175,13 +175,14 @@ theorem scan_no_duplicates (seq : Seq) (fwd : Bool) (offset minLen : Int) (recLe
 /-! ### 4. gaps between genes -/
 
 /-- every area returned lies in `[start, end)`, is at least `minLen` long and touches no gene's
-    core `[g.start + pad, g.end − pad)`; genes ordered by start as the docstring requires -/
+    core `[g.start + pad, g.end − pad)` — for genes given in ANY order (the function orders them by
+    start itself since fixes/D66-C15; the record lists origin-spanning genes first) -/
 theorem intergenic_sound (start «end» minLen pad : Int) (genes : List Gene) (hpad : 0 ≤ pad)
-    (hsorted : sortedByStart genes) (a : Int × Int)
+    (a : Int × Int)
     (ha : a ∈ findIntergenic start «end» genes minLen pad) :
     start ≤ a.1 ∧ a.2 ≤ «end» ∧ minLen ≤ a.2 - a.1 ∧
       ∀ g ∈ genes, ∀ i, a.1 ≤ i → i < a.2 → ¬ g.core pad i :=
-  findIntergenic_sound start «end» minLen pad genes hpad hsorted a ha
+  findIntergenic_sound start «end» minLen pad genes hpad a ha
 
 /-- the check the driver evaluates on the implementation's areas is that statement -/
 theorem intergenic_check_meaning (genes : List Gene) (pad : Int) (a : Int × Int) :
@@ -210,20 +211,20 @@ theorem intergenic_complete_clear (start «end» minLen pad : Int) (genes : List
 
 /-- every maximal gap (`IsGap`) beside all genes and long enough is returned as it is -/
 theorem intergenic_gap_returned (start «end» minLen pad : Int) (genes : List Gene) (hpad : 0 ≤ pad)
-    (hsorted : sortedByStart genes) (a b : Int) (hgap : IsGap start «end» genes pad a b)
+    (a b : Int) (hgap : IsGap start «end» genes pad a b)
     (hb : ∀ g ∈ genes, Beside g pad a b) (hlen : minLen ≤ b - a) :
     (a, b) ∈ findIntergenic start «end» genes minLen pad :=
-  findIntergenic_gap_mem start «end» minLen pad genes hpad hsorted a b hgap hb hlen
+  findIntergenic_gap_mem start «end» minLen pad genes hpad a b hgap hb hlen
 
-/-- "the gap search returns exactly the gaps": genes ordered by start and longer than twice the
+/-- "the gap search returns exactly the gaps": genes (in any order) longer than twice the
     padding, `minLen > 0` — the returned areas are precisely the maximal gaps of `[start, end)`
     between padded genes that are at least `minLen` long -/
 theorem intergenic_returns_exactly_gaps (start «end» minLen pad : Int) (genes : List Gene)
-    (hpad : 0 ≤ pad) (hmin : 0 < minLen) (hsorted : sortedByStart genes)
+    (hpad : 0 ≤ pad) (hmin : 0 < minLen)
     (hlong : ∀ g ∈ genes, g.start + pad < g.end - pad) (a b : Int) :
     (a, b) ∈ findIntergenic start «end» genes minLen pad ↔
       IsGap start «end» genes pad a b ∧ minLen ≤ b - a :=
-  findIntergenic_iff_gap start «end» minLen pad genes hpad hmin hsorted hlong a b
+  findIntergenic_iff_gap start «end» minLen pad genes hpad hmin hlong a b
 
 /-! ### 5. `find_all_orfs`: ORFs lie in the gaps and extract to ORFs -/
 
@@ -239,12 +240,12 @@ theorem all_orfs_in_areas (rec : Seq) (minLen : Int) (hL : 0 < rec.length)
     found lies inside an area that is inside `[start, end)` and clear of every gene's core -/
 theorem all_orfs_in_gaps (rec : Seq) (genes : List Gene) (start «end» minLen pad : Int)
     (hL : 0 < rec.length) (hpad : 0 ≤ pad) (hmin : 0 ≤ minLen) (hstart : 0 ≤ start)
-    (hend : «end» ≤ rec.length) (hsorted : sortedByStart genes) (locs : List Loc)
+    (hend : «end» ≤ rec.length) (locs : List Loc)
     (h : scanAreas rec minLen (findIntergenic start «end» genes minLen pad) = some locs) :
     ∀ l ∈ locs, ∃ a : Int × Int, locInArea rec.length a l = true ∧ start ≤ a.1 ∧ a.2 ≤ «end» ∧
       ∀ g ∈ genes, ∀ i, a.1 ≤ i → i < a.2 → ¬ g.core pad i := by
   intro l hl
-  have hs := fun a ha => findIntergenic_sound start «end» minLen pad genes hpad hsorted a ha
+  have hs := fun a ha => findIntergenic_sound start «end» minLen pad genes hpad a ha
   obtain ⟨a, ha, hin⟩ := scanAreas_in_areas rec minLen hL _ locs (fun a ha => by
     obtain ⟨h1, h2, h3, _⟩ := hs a ha
     exact ⟨by omega, by omega, by omega, by omega⟩) h l hl
@@ -394,7 +395,7 @@ theorem all_orfs_complete_linear (rec : Seq) (start «end» minLen pad : Int) (g
       · split at hx
         · exact ih _ x hx
         · exact ih _ x hx
-  have := this genes start a hm
+  have := this (sortGenes genes) start a hm
   omega
 
 /-! ### 5b. `find_all_orfs` on a record: the genes come from the record's own lookup -/
@@ -403,10 +404,26 @@ theorem all_orfs_complete_linear (rec : Seq) (start «end» minLen pad : Int) (g
     a returned area shares at most `pad` bases with every gene handed to the search — also with
     genes shorter than twice the padding -/
 theorem intergenic_sound_overlap (start «end» minLen pad : Int) (genes : List Gene) (hpad : 0 ≤ pad)
-    (hsorted : sortedByStart genes) (a : Int × Int)
+    (a : Int × Int)
     (ha : a ∈ findIntergenic start «end» genes minLen pad) (g : Gene) (hg : g ∈ genes)
     (x y : Int) (hx : a.1 ≤ x) (hy : y ≤ a.2) : overlapSize g x y ≤ pad :=
-  findIntergenic_overlap start «end» minLen pad genes hpad hsorted a ha g hg x y hx hy
+  findIntergenic_overlap start «end» minLen pad genes hpad a ha g hg x y hx hy
+
+/-- the gap search reads `cds.location.start` / `cds.location.end` — the coordinate hull of the gene
+    (`geneOf`), for a gene over the origin `0` and `len(record)` — so every area shares at most `pad` bases
+    with every *exon* of every gene handed to it, wherever the exons lie inside the hull (the transcription-
+    order ends `Feature.start/.end` of an origin-spanning gene would not give this) -/
+theorem intergenic_sound_exons (start «end» minLen pad : Int) (genes : List Lookup.Gene) (hpad : 0 ≤ pad)
+    (a : Int × Int)
+    (ha : a ∈ findIntergenic start «end» (genes.map geneOf) minLen pad) (g : Lookup.Gene) (hg : g ∈ genes)
+    (gp : Part) (hgp : gp ∈ g.loc.parts) (x y : Int) (hx : a.1 ≤ x) (hy : y ≤ a.2) :
+    exonOverlap gp x y ≤ pad := by
+  have := findIntergenic_overlap start «end» minLen pad _ hpad a ha (geneOf g)
+    (List.mem_map.2 ⟨g, hg, rfl⟩) x y hx hy
+  have hull := start_le_part g.loc gp hgp
+  simp only [overlapSize, geneOf] at this
+  simp only [exonOverlap]
+  omega
 
 /-- `find_all_orfs(record, area)` with the gene lists obtained the way the code obtains them —
     `record.get_cds_features()` for the whole record, `get_cds_features_within_location(area.location,
@@ -414,27 +431,29 @@ theorem intergenic_sound_overlap (start «end» minLen pad : Int) (genes : List 
     `max_overlap` bases with ANY gene of the record: nested genes, genes starting before the area and
     reaching into it, whatever lies between them in the record's order.  `genes` is the record's gene
     list (in `Feature.__lt__` order, well-formed: invariants of every record, C08 `genes_stay_sorted`),
-    no gene running over the origin (several exons and introns are fine: the bound holds exon by exon);
+    genes of any shape — several exons, introns, running over the origin on either strand (the record lists
+    those first whatever their coordinates; the gap search orders what it is given by `location.start`
+    itself, fixes/D66-C15) — the bound holds exon by exon;
     the area is absent or a single stretch inside the record. -/
 theorem all_orfs_avoid_every_gene (rec : Seq) (genes : List Lookup.Gene) (hs : Lookup.Sorted genes)
-    (hok : Lookup.GenesOK genes) (hsimple : AllLinear genes) (area : Option Part) (minLen pad : Int)
+    (hok : Lookup.GenesOK genes) (area : Option Part) (minLen pad : Int)
     (hL : 0 < rec.length) (hpad : 0 ≤ pad) (hmin : 0 ≤ minLen)
     (harea : ∀ p, area = some p → 0 ≤ p.lo ∧ p.lo < p.hi ∧ p.hi ≤ rec.length)
     (locs : List Loc) (h : findAllOrfsRec rec genes (area.map Loc.simple) minLen pad = some locs) :
     ∀ l ∈ locs, locOverlapOk (genes.map (·.loc)) pad l = true :=
-  findAllOrfsRec_overlap_linear rec genes hs hok hsimple area minLen pad hL hpad hmin harea locs h
+  findAllOrfsRec_overlap_linear rec genes hs hok area minLen pad hL hpad hmin harea locs h
 
 /-- the same for an origin-crossing area `join{[a, L), [0, b)}` with `0 < b ≤ a < L`: each part's genes
     come from the lookup for that part, and every part of every ORF found (also of an ORF running over
     the origin) shares at most `max_overlap` bases with any gene of the record -/
 theorem all_orfs_avoid_every_gene_crossing (rec : Seq) (genes : List Lookup.Gene) (hs : Lookup.Sorted genes)
-    (hok : Lookup.GenesOK genes) (hsimple : AllLinear genes) (a b : Int) (s1 s2 : Strand) (minLen pad : Int)
+    (hok : Lookup.GenesOK genes) (a b : Int) (s1 s2 : Strand) (minLen pad : Int)
     (hpad : 0 ≤ pad) (hmin : 0 ≤ minLen) (hb : 0 < b) (hba : b ≤ a) (haL : a < rec.length)
     (hcross : Lookup.crosses (.compound [⟨a, rec.length, s1⟩, ⟨0, b, s2⟩]) = true)
     (locs : List Loc)
     (h : findAllOrfsRec rec genes (some (.compound [⟨a, rec.length, s1⟩, ⟨0, b, s2⟩])) minLen pad = some locs) :
     ∀ l ∈ locs, locOverlapOk (genes.map (·.loc)) pad l = true :=
-  findAllOrfsRec_overlap_crossing rec genes hs hok hsimple a b s1 s2 minLen pad hpad hmin hb hba haL hcross locs h
+  findAllOrfsRec_overlap_crossing rec genes hs hok a b s1 s2 minLen pad hpad hmin hb hba haL hcross locs h
 
 /-! ### 5c. "each with a translation matching its location" -/
 
@@ -575,6 +594,19 @@ example : findAllOrfsRec "CCCCCCCCCCATGAAATAACCATGCCCTAA".toList
 /-- GTG start, four codons, stop: the feature's translation is M K P G -/
 example : featureTranslation Gen.forwardTable11 Gen.stopCodons11 "GTGAAACCCGGGTAA".toList = some "MKPG".toList := by decide
 example : specProtein Gen.forwardTable11 "CCGTGAAACCCGGGTAAC".toList 2 14 = "MKPG".toList := by decide
+/-- a ring of 30 with a gene over the origin, join{[24,30),[0,12)}: its hull is the whole record, it is found
+    by the lookup for the area [1,20), and the ORF at [2,11) inside it is reported neither by the whole-record
+    search nor by the area search -/
+example : (Lookup.within [⟨0, .compound [⟨24, 30, .fwd⟩, ⟨0, 12, .fwd⟩], []⟩] (.simple ⟨1, 20, .fwd⟩) true).map geneOf
+    = [⟨0, 30⟩] := by decide
+example : findAllOrfsRec "CCATGAAATAACCCCCCCCCCCCCCCCCCC".toList
+    [⟨0, .compound [⟨24, 30, .fwd⟩, ⟨0, 12, .fwd⟩], []⟩] none 6 0 = some [] := by decide
+example : findAllOrfsRec "CCATGAAATAACCCCCCCCCCCCCCCCCCC".toList
+    [⟨0, .compound [⟨24, 30, .fwd⟩, ⟨0, 12, .fwd⟩], []⟩] (some (.simple ⟨1, 20, .fwd⟩)) 6 0 = some [] := by decide
+example : findAllOrfsRec "CCATGAAATAACCCCCCCCCCCCCCCCCCC".toList [] none 6 0 = some [.simple ⟨2, 11, .fwd⟩] := by decide
+/-- D66-C15: an origin-spanning gene whose hull does not begin at 0 — join{[90,100),[20,40)} — is listed first by
+    the record; ordered by start, the gene [0,15) still blocks its stretch -/
+example : findIntergenic 0 100 [⟨20, 100⟩, ⟨0, 15⟩] 6 0 = [] := by decide
 example : sortedByStart [⟨0, 110⟩, ⟨50, 105⟩] := (sortedByStartB_iff _).1 (by decide)
 
 end ASV.C15
